@@ -348,6 +348,27 @@ M("p5-mux-wrong-field", "C02", "fire P5", "src/circuit.rs",
   """        for (i, (&if_true, &if_false)) in t.end_line.iter().zip(f.start_line.iter()).enumerate() {""", "end_line of a merge takes the else side from start_line")
 
 # ---------------------------------------------------------------- C14
+M("e8-quiet-outermost-scope-copied", "C14", "quiet", "src/circuit.rs",
+  """        let mut muxed = Env(vec![]);
+        for (a, b) in a.0.iter().zip(b.0.iter()) {""",
+  """        let mut muxed = a.outermost_scope();
+        for (a, b) in a.0.iter().zip(b.0.iter()).skip(1) {""", "behaviour-preserving on this tree: the outermost scope only holds consts (first half of seed C14-n)")
+M2("e8-outermost-scope-copied-with-params-in-it", "C14", "fire E8", [
+  ("src/circuit.rs", """        let mut muxed = Env(vec![]);
+        for (a, b) in a.0.iter().zip(b.0.iter()) {""", """        let mut muxed = a.outermost_scope();
+        for (a, b) in a.0.iter().zip(b.0.iter()).skip(1) {"""),
+  ("src/compile.rs", """                let mut env = env.outermost_scope();
+                env.push();
+                for (var, binding) in bindings {
+                    env.let_in_current_scope(var.clone(), binding);
+                }
+                let body = compile_block(&fn_def.body, prg, &mut env, circuit);
+                env.pop();
+                body""", """                let mut env = env.outermost_scope();
+                for (var, binding) in bindings {
+                    env.let_in_current_scope(var.clone(), binding);
+                }
+                compile_block(&fn_def.body, prg, &mut env, circuit)""")], "both halves of seed C14-n: mut parameters of called functions are no longer merged")
 REVERT("revert-shortcircuit-env", "C14", "fire E4", "cc9123e", "pre-fix tree: rhs of && / || lowered on the caller's environment")
 M("e2-block-no-pop", "C14", "fire E2", "src/compile.rs",
   """        expr = stmt.compile(prg, env, circuit);
@@ -512,6 +533,33 @@ M2("g2-checking-helper-result-dropped", "C16", "fire G2", [
 }
 
 // For some reason auto-ref auto-deref method dispatching works weirdly with""")], "the helper's verdict is thrown away")
+M("g8-saturated-input-bound", "C16", "fire G8", "src/register_circuit.rs",
+  """                    match self.input_regs.get(party as usize) {
+                        Some(&input_bits) if (input as usize) < input_bits => {}
+                        _ => return Err(CircuitError::InvalidInput(i, *inst)),
+                    }""",
+  """                    let Some(&input_bits) = self.input_regs.get(party as usize) else {
+                        return Err(CircuitError::InvalidInput(i, *inst));
+                    };
+                    let max_input = input_bits.saturating_sub(1);
+                    if input as usize > max_input {
+                        return Err(CircuitError::InvalidInput(i, *inst));
+                    }""", "seed C16-h: input 0 of a party without bits passes")
+M("g8-quiet-saturated-input-bound-guarded", "C16", "quiet", "src/register_circuit.rs",
+  """                    match self.input_regs.get(party as usize) {
+                        Some(&input_bits) if (input as usize) < input_bits => {}
+                        _ => return Err(CircuitError::InvalidInput(i, *inst)),
+                    }""",
+  """                    let Some(&input_bits) = self.input_regs.get(party as usize) else {
+                        return Err(CircuitError::InvalidInput(i, *inst));
+                    };
+                    if input_bits == 0 {
+                        return Err(CircuitError::InvalidInput(i, *inst));
+                    }
+                    let max_input = input_bits.saturating_sub(1);
+                    if input as usize > max_input {
+                        return Err(CircuitError::InvalidInput(i, *inst));
+                    }""", "same bound with the empty party rejected first")
 M("g1-not-rejecting", "C16", "fire G1", "src/register_circuit.rs",
   """                Op::Not(Not(x)) => {
                     if x > max_reg {
